@@ -389,3 +389,92 @@ def rule_texts(prop, stale=False):
     if stale:
         d[f"{prop}-S0"] = RULE_TEXT["S0"]
     return d
+
+
+# ----------------------------------------------------------------------------------------------------------------- R-AXIS
+def export_keeps_element_axis(ctx, rule, what):
+    """`as_array()` of both attribute storages must return one row per element whatever the number of elements: a whole-array
+    `np.squeeze(x)` (no axis) also removes the element axis when the container has exactly one element, so a consumer that takes
+    `len()` of / indexes the exported measure fails on a one-face (one-cell, one-edge) mesh."""
+    mod = "mesh.mesh_attributes"
+    n = 0
+    for cls in ("Attribute", "ArrayAttribute"):
+        try:
+            fn = ctx.repo.func(mod, f"{cls}.as_array")
+        except Exception:
+            ctx.undecided(rule, ctx.site(mod, f"{cls}.as_array"), f"{cls}.as_array not found", "")
+            continue
+        rets = [st for st in au.stmts(fn.body) if isinstance(st, ast.Return) and st.value is not None]
+        bad = None
+        for st in rets:
+            for c in au.walk(st.value):
+                if isinstance(c, ast.Call) and au.call_tail(c) == "squeeze":
+                    has_axis = any(k.arg == "axis" for k in c.keywords) or (
+                        len(c.args) >= 2 if not (isinstance(c.func, ast.Attribute) and not au.src(c.func.value) in ("np", "numpy")) else len(c.args) >= 1)
+                    if not has_axis:
+                        bad = c
+        n += 1
+        ctx.check(bad is None, rule, ctx.site(mod, fn, bad or fn),
+                  f"{cls}.as_array squeezes every unit axis of the exported array, the element axis included",
+                  f"for a container with exactly one element the export is 0-dimensional (or loses its row axis): {what}",
+                  note=f"{cls}.as_array keeps one row per element")
+    return n
+
+
+# ----------------------------------------------------------------------------------------------------------------- R-MEMBER
+def _iter_kind(cls_node):
+    """what iterating / `in` ranges over for an attribute storage class: 'keys' (element indices) | 'values' | None (unknown)"""
+    fns = {st.name: st for st in cls_node.body if isinstance(st, ast.FunctionDef)}
+    if "__contains__" in fns:
+        return "keys"          # an explicit membership test is assumed to be about element indices (checked by C05's own rules)
+    it = fns.get("__iter__")
+    if it is None:
+        return None
+    for n in au.walk(it):
+        if isinstance(n, (ast.Yield, ast.Return)) and n.value is not None:
+            v = n.value
+            s = au.src(v)
+            if isinstance(v, ast.Subscript) and au.is_self_attr(v.value):
+                return "values"                      # yield self._data[i]
+            if "keys()" in s or s.startswith("iter(self.") or s.startswith("range(") or (isinstance(v, ast.Name)):
+                return "keys" if not isinstance(v, ast.Name) else None
+    return None
+
+
+def attribute_membership(ctx, rule, modname, what):
+    """`k in A` with A an attribute object must mean `element k has a stored entry` for BOTH storage classes. Python falls back to
+    __iter__ when a class has no __contains__; the dense storage iterates over its values, so the test compares an index with values."""
+    m = ctx.repo.module(modname)
+    attrmod = ctx.repo.module("mesh.mesh_attributes")
+    kinds = {c: _iter_kind(attrmod.classes[c]) for c in ("Attribute", "ArrayAttribute") if c in attrmod.classes}
+    n = 0
+    for q, fn in m.funcs.items():
+        if "<locals>" in q:
+            continue
+        # names / dict entries bound to attribute objects
+        attr_names, attr_dicts = set(), set()
+        for st in au.stmts(fn.body):
+            if isinstance(st, ast.Assign) and isinstance(st.value, ast.Call) and au.call_tail(st.value) in ("get_attribute", "create_attribute"):
+                for t in st.targets:
+                    if isinstance(t, ast.Name):
+                        attr_names.add(t.id)
+                    elif isinstance(t, ast.Subscript) and isinstance(t.value, ast.Name):
+                        attr_dicts.add(t.value.id)
+        for c in au.walk(fn, into_funcs=True):
+            if isinstance(c, ast.Compare) and len(c.ops) == 1 and isinstance(c.ops[0], (ast.In, ast.NotIn)):
+                r = c.comparators[0]
+                is_attr = (isinstance(r, ast.Name) and r.id in attr_names) or (
+                    isinstance(r, ast.Subscript) and isinstance(r.value, ast.Name) and r.value.id in attr_dicts)
+                if not is_attr:
+                    continue
+                n += 1
+                if len(kinds) < 2 or None in kinds.values():
+                    ctx.undecided(rule, ctx.site(modname, fn, c), f"{fn.name}: membership test on an attribute object, iteration protocol of the "
+                                  "storage classes not read", "")
+                    continue
+                bad = [k for k, v in kinds.items() if v != "keys"]
+                ctx.check(not bad, rule, ctx.site(modname, fn, c),
+                          f"{fn.name}: `{au.src(c.ops[0].__class__()) if False else ('in' if isinstance(c.ops[0], ast.In) else 'not in')}` is applied to an "
+                          f"attribute object, but {', '.join(bad)} has no __contains__ and iterates over its values, not over element indices",
+                          what, note=f"{fn.name}: attribute membership ranges over element indices for both storages")
+    return n
